@@ -369,7 +369,7 @@ func specIsRejectErr(err error) bool { _, ok := err.(*RejectError); return ok }
 //@ func (*connection).sendWaitReply
 //@ nosafety nil-deref nil-iface
 //@ requires c != nil && msg != nil && specRealMsg(msg)
-//@ emits hsms.(transport).Write, hsms.(*ConnectionMetrics).incDataMsgSend, hsms.(*connection).dropNotSelected, hsms.(*ConnectionMetrics).incDataMsgDropNotSelected, hsms.(*connection).TCPDown, IsSelected:true, IsSelected:false, hsms.(*epoch).liveConn, hsms.(*ConnectionMetrics).incDataMsgInflight, hsms.(*ConnectionMetrics).decDataMsgInflight, hsms.(*ConnectionMetrics).incDataMsgErr, hsms.(*connection).sendAutoS9F9, hsms.(replyRegistry).register, hsms.(replyRegistry).deregister
+//@ emits hsms.(transport).Write, hsms.(*ConnectionMetrics).incDataMsgSend, hsms.(*connection).dropNotSelected, hsms.(*ConnectionMetrics).incDataMsgDropNotSelected, hsms.(*connection).TCPDown, IsSelected:true, IsSelected:false, hsms.(*epoch).liveConn, hsms.(*ConnectionMetrics).incDataMsgInflight, hsms.(*ConnectionMetrics).decDataMsgInflight, hsms.(*ConnectionMetrics).incDataMsgErr, hsms.(*connection).sendAutoS9F9, hsms.(replyRegistry).register, hsms.(replyRegistry).deregister, atomic.Load:cur, hsms.(*connection).writeFrame, internal/pool.GetTimer
 //@ ensures [gate]     specIsData(msg) && zzCalls("IsSelected:false") > 0 ==> zzCalls("hsms.(transport).Write") == 0 &&
 //@                    result1 == ErrNotSelectedState && zzCalls("hsms.(*ConnectionMetrics).incDataMsgDropNotSelected") == 1 && result0 == nil
 //@ ensures [once]     zzCalls("hsms.(transport).Write") <= 1 && zzCalls("hsms.(*ConnectionMetrics).incDataMsgDropNotSelected") <= 1
@@ -400,7 +400,7 @@ func specIsRejectErr(err error) bool { _, ok := err.(*RejectError); return ok }
 //@ func (*connection).sendNoReply
 //@ nosafety nil-deref nil-iface
 //@ requires c != nil && msg != nil && specRealMsg(msg)
-//@ emits hsms.(transport).Write, hsms.(*ConnectionMetrics).incDataMsgSend, hsms.(*connection).dropNotSelected, hsms.(*ConnectionMetrics).incDataMsgDropNotSelected, hsms.(*connection).TCPDown, IsSelected:true, IsSelected:false, hsms.(*epoch).liveConn, hsms.(*ConnectionMetrics).incDataMsgErr
+//@ emits hsms.(transport).Write, hsms.(*ConnectionMetrics).incDataMsgSend, hsms.(*connection).dropNotSelected, hsms.(*ConnectionMetrics).incDataMsgDropNotSelected, hsms.(*connection).TCPDown, IsSelected:true, IsSelected:false, hsms.(*epoch).liveConn, hsms.(*ConnectionMetrics).incDataMsgErr, atomic.Load:cur, hsms.(*connection).writeFrame
 //@ ensures [gate]  specIsData(msg) && zzCalls("IsSelected:false") > 0 ==> zzCalls("hsms.(transport).Write") == 0 &&
 //@                 result == ErrNotSelectedState && zzCalls("hsms.(*ConnectionMetrics).incDataMsgDropNotSelected") == 1
 //@ ensures [once]  zzCalls("hsms.(transport).Write") <= 1
@@ -410,7 +410,7 @@ func specIsRejectErr(err error) bool { _, ok := err.(*RejectError); return ok }
 //@ func (*connection).SendAsync
 //@ nosafety nil-deref nil-iface
 //@ requires c != nil && msg != nil && specRealMsg(msg)
-//@ emits hsms.(*connection).dropNotSelected, hsms.(*ConnectionMetrics).incDataMsgDropNotSelected, IsSelected:true, IsSelected:false, chan.send
+//@ emits hsms.(*connection).dropNotSelected, hsms.(*ConnectionMetrics).incDataMsgDropNotSelected, IsSelected:true, IsSelected:false, chan.send, atomic.Load:cur
 //@ ensures [gate]  specIsData(msg) && zzCalls("IsSelected:false") > 0 ==> zzCalls("chan.send") == 0 &&
 //@                 result == ErrNotSelectedState && zzCalls("hsms.(*ConnectionMetrics).incDataMsgDropNotSelected") == 1
 //@ ensures [ctl]   !specIsData(msg) ==> zzCalls("hsms.(*ConnectionMetrics).incDataMsgDropNotSelected") == 0
@@ -467,14 +467,14 @@ func specBadData(stream, function byte, w bool, item secs2.Item) bool {
 //@ func (*connection).WriteMessage
 //@ nosafety nil-deref nil-iface
 //@ requires c != nil && msg != nil && specRealMsg(msg)
-//@ emits hsms.(transport).Write, hsms.(*ConnectionMetrics).incDataMsgSend, hsms.(*connection).dropNotSelected, hsms.(*ConnectionMetrics).incDataMsgDropNotSelected, hsms.(*connection).TCPDown, IsSelected:true, IsSelected:false, hsms.(*epoch).liveConn, hsms.(*ConnectionMetrics).incDataMsgInflight, hsms.(*ConnectionMetrics).decDataMsgInflight, hsms.(*ConnectionMetrics).incDataMsgErr, hsms.(*connection).sendAutoS9F9, hsms.(replyRegistry).register, hsms.(replyRegistry).deregister
+//@ emits hsms.(transport).Write, hsms.(*ConnectionMetrics).incDataMsgSend, hsms.(*connection).dropNotSelected, hsms.(*ConnectionMetrics).incDataMsgDropNotSelected, hsms.(*connection).TCPDown, IsSelected:true, IsSelected:false, hsms.(*epoch).liveConn, hsms.(*ConnectionMetrics).incDataMsgInflight, hsms.(*ConnectionMetrics).decDataMsgInflight, hsms.(*ConnectionMetrics).incDataMsgErr, hsms.(*connection).sendAutoS9F9, hsms.(replyRegistry).register, hsms.(replyRegistry).deregister, atomic.Load:cur, hsms.(*connection).writeFrame, internal/pool.GetTimer
 //@ ensures [gate] specIsData(msg) && zzCalls("IsSelected:false") > 0 ==> zzCalls("hsms.(transport).Write") == 0 &&
 //@                result1 == ErrNotSelectedState && zzCalls("hsms.(*ConnectionMetrics).incDataMsgDropNotSelected") == 1
 
 //@ func (*connection).WriteMessageNoReply
 //@ nosafety nil-deref nil-iface
 //@ requires c != nil && msg != nil && specRealMsg(msg)
-//@ emits hsms.(transport).Write, hsms.(*ConnectionMetrics).incDataMsgSend, hsms.(*connection).dropNotSelected, hsms.(*ConnectionMetrics).incDataMsgDropNotSelected, hsms.(*connection).TCPDown, IsSelected:true, IsSelected:false, hsms.(*epoch).liveConn, hsms.(*ConnectionMetrics).incDataMsgErr
+//@ emits hsms.(transport).Write, hsms.(*ConnectionMetrics).incDataMsgSend, hsms.(*connection).dropNotSelected, hsms.(*ConnectionMetrics).incDataMsgDropNotSelected, hsms.(*connection).TCPDown, IsSelected:true, IsSelected:false, hsms.(*epoch).liveConn, hsms.(*ConnectionMetrics).incDataMsgErr, atomic.Load:cur, hsms.(*connection).writeFrame, internal/pool.GetTimer
 //@ ensures [gate] specIsData(msg) && zzCalls("IsSelected:false") > 0 ==> zzCalls("hsms.(transport).Write") == 0 &&
 //@                result == ErrNotSelectedState && zzCalls("hsms.(*ConnectionMetrics).incDataMsgDropNotSelected") == 1
 
@@ -495,7 +495,7 @@ func specBadData(stream, function byte, w bool, item secs2.Item) bool {
 //@ func (*connection).DeliverOwnedFrame
 //@ nosafety nil-deref nil-iface
 //@ requires c != nil
-//@ emits hsms.(*ConnectionMetrics).incDataMsgRecv, hsms.(*ConnectionMetrics).incDecodeErr, hsms.(*connection).RouteReply, hsms.(*connection).RouteData, hsms.(*connection).checkSessionID, hsms.(replyRegistry).route
+//@ emits hsms.(*ConnectionMetrics).incDataMsgRecv, hsms.(*ConnectionMetrics).incDecodeErr, hsms.(*connection).RouteReply, hsms.(*connection).RouteData, hsms.(*connection).checkSessionID, hsms.(replyRegistry).route, atomic.Load:cur, chan.send
 //@ ensures [recv]   (len(frame) >= 10 && frame[4] == 0 && frame[5] == 0) ==> zzCalls("hsms.(*ConnectionMetrics).incDataMsgRecv") == 1 && zzCalls("hsms.(*ConnectionMetrics).incDecodeErr") == 0
 //@ ensures [norecv] !(len(frame) >= 10 && frame[4] == 0 && frame[5] == 0) ==> zzCalls("hsms.(*ConnectionMetrics).incDataMsgRecv") == 0 && result != nil &&
 //@                  zzCalls("hsms.(*connection).RouteReply") == 0 && zzCalls("hsms.(*connection).RouteData") == 0
@@ -534,13 +534,14 @@ func zzArmedChan[T any](c chan T) bool  { panic("spec only") }
 //@ ensures [fresh] fresh(result)
 
 //@ func (replyRegistry).route
+//@ emits chan.send
 //@ nosafety nil-deref nil-iface
 //@ requires zzChanInv_replyResult(res)
 
 //@ func (*connection).RouteReply
 //@ nosafety nil-deref nil-iface
 //@ requires c != nil && specRealMsg(msg)
-//@ emits hsms.(replyRegistry).route
+//@ emits hsms.(replyRegistry).route, atomic.Load:cur, chan.send
 //@ ensures [once]   zzCalls("hsms.(replyRegistry).route") <= 1
 //@ ensures [miss]   zzRet[*epoch]("atomic.Load:cur") == nil ==> !result && zzCalls("hsms.(replyRegistry).route") == 0
 //@ ensures [key]    zzCalls("hsms.(replyRegistry).route") == 1 && specIsData(msg) ==>
